@@ -54,6 +54,8 @@ Step(e) ==
                  \cup {Dev("C05.lost", "post_never_delivered", <<p, Len(st.acc[p]) - st.del[p]>>) : p \in {q \in 0..7 : st.del[q] < Len(st.acc[q])}}
                  \cup (IF st.focusOut = st.focusIn THEN {} ELSE {Dev("C05.lost", "focus_event", <<st.focusIn, st.focusOut>>)})>>
       [] e.ev = "FiniHang" -> <<st, {Dev("C06.hang", "Fini", "after delivery run")}>>
+      \* HasPendingEvent answered true, yet PollEvent then blocked for seconds with nothing posted or typed
+      [] e.ev = "PendingLie" -> <<st, {Dev("C05.pending", "true_but_poll_blocked", <<e.where, e.waited_ms>>)}>>
       [] e.ev = "ChanStillOpen" -> <<st, {Dev("C05.channel", "not_closed_on_fini", 0)}>>
       \* ChanQuit: events forwarded in order, then quit closed while nothing is pending: the channel is closed without
       \* waiting for another event, and an event posted afterwards is there for PollEvent
